@@ -2,7 +2,10 @@
      S <code> <maxlen> <heaplimit> <msgstate>                   -> S <rc|F> <wirehex|*>
      R <exptype> <maxlen> <heaplimit> <streamhex> <msgstate>    -> R <rc|F> <members> <7 buffers> nul=1 ec=_
    A message whose error fields were set by m_msg_set_err prints error_len and error_str as L (the
-   wording of the local diagnostic is not modelled). *)
+   wording of the local diagnostic is not modelled).
+   Client side (same case lines and answers as harness/msgclient_harness.c):
+     D <credhex> <n> <stream_1> ... <stream_n>
+     E <cipher> <mac> <zip> <ttl> <auth_uid> <auth_gid> <payloadhex|-> <n> <stream_1> ... <stream_n> *)
 open Model
 open Conv
 
@@ -42,6 +45,13 @@ let print_state ok m =
 
 let hp_of limit = let l = z_of_int limit in fun z -> Z.leb z l
 
+(* client side *)
+let big_heap = let l = z_of_int (64 lsl 20) in fun z -> Z.leb z l
+let cstr l = let rec go = function [] -> [] | b :: r -> if int_of_byte b = 0 then [] else b :: go r in go l
+let cstr_opt = function None -> "-" | Some l -> xhex (cstr l)
+let estr_s = function ENull -> "-" | ELocal -> "L" | EWire l -> xhex (cstr l)
+let conns sent = Printf.sprintf " conns=%d%s" (List.length sent) (String.concat "" (List.map (fun w -> " " ^ hex w) sent))
+
 let do_line line =
   match split_on ' ' line with
   | "S" :: code :: maxlen :: limit :: st ->
@@ -58,6 +68,26 @@ let do_line line =
      | ROk m -> Printf.printf "R 0 "; print_state true m
      | RErr (e, m) -> Printf.printf "R %d " (int_of_n e); print_state false m
      | RFault _ -> Printf.printf "R F\n")
+  | "D" :: cred :: _n :: streams ->
+    let (r, sent) = client_decode big_heap (unhex cred) (List.map unhex streams) in
+    (match r with
+     | None -> Printf.printf "D F\n"
+     | Some r ->
+       let c = r.d_ctx in
+       Printf.printf "D %d %d %d %d %s %d %s %d %d %d %d %d %s %d %d %d %s%s\n" (int_of_n r.d_err)
+         (int_of_z c.x_cipher) (int_of_z c.x_mac) (int_of_z c.x_zip) (cstr_opt c.x_realm) (int_of_z c.x_ttl)
+         (hex c.x_addr) (int_of_z c.x_time0) (int_of_z c.x_time1) (int_of_n c.x_auth_uid) (int_of_n c.x_auth_gid)
+         (int_of_z r.d_len) (match r.d_buf with None -> "-" | Some l -> xhex l) (int_of_n r.d_uid) (int_of_n r.d_gid)
+         (int_of_n r.d_err) (estr_s r.d_estr) (conns sent))
+  | "E" :: ci :: ma :: zi :: ttl :: au :: ag :: payload :: _n :: streams ->
+    let n s = n_of_int (int_of_string s) in
+    let (r, sent) = client_encode big_heap (enc_req (n ci) (n ma) (n zi) (n ttl) (n au) (n ag) (unhex payload))
+        (List.map unhex streams) in
+    (match r with
+     | None -> Printf.printf "E F\n"
+     | Some r ->
+       Printf.printf "E %d %s %s %s %s - %s %s %s %d %s%s\n" (int_of_n r.e_err) (cstr_opt r.e_cred) ci ma zi ttl au ag
+         (int_of_n r.e_err) (estr_s r.e_estr) (conns sent))
   | _ -> Printf.printf "? %s\n" line
 
 let () =
